@@ -56,6 +56,18 @@ def freeNode (cow : Nat) (id : Nat) : M Unit := fun H =>
     ((), if H.free.length < H.cap then { H with nodes := nodes, free := id :: H.free } else { H with nodes := nodes })
   else ((), H)
 
+/-- what `copyOnWriteContext.freeNode` reports -/
+inductive FreeType | freelistFull | stored | notOwned
+deriving DecidableEq, Repr
+
+/-- `freeNode` with its result (used by `reset`) -/
+def freeNodeT (cow : Nat) (id : Nat) : M FreeType := fun H =>
+  if (H.get id).cow = some cow then
+    let nodes := H.nodes.set id HNode.empty
+    if H.free.length < H.cap then (.stored, { H with nodes := nodes, free := id :: H.free })
+    else (.freelistFull, { H with nodes := nodes })
+  else (.notOwned, H)
+
 /-- `node.mutableFor(cow)` -/
 def mutableFor (cow : Nat) (id : Nat) : M Nat := do
   let n ← rd id
@@ -237,6 +249,29 @@ def deleteItemB (t : HTree) (typ : Rm) : M (HTree × Option Item) := do
           pure c
         | _, _ => pure r : M Nat)
       pure ({ t with root := some root, length := if out.isSome then t.length - 1 else t.length }, out)
+
+/-- `(*node).reset(c)`: frees the subtree bottom-up, stops as soon as the free list is full; fuel = height.
+    `true` = the caller should continue. The children are read before the node itself is cleared. -/
+def resetB (cow : Nat) : Nat → Nat → M Bool
+  | 0, id => do
+    let ft ← freeNodeT cow id
+    pure (ft != .freelistFull)
+  | fuel + 1, id => do
+    let nd ← rd id
+    let go ← nd.children.foldlM (fun (acc : Bool) c => if acc then resetB cow fuel c else pure false) true
+    if go then do
+      let ft ← freeNodeT cow id
+      pure (ft != .freelistFull)
+    else pure false
+
+/-- `Clear(addNodesToFreelist)` -/
+def clearB (t : HTree) (add : Bool) : M (HTree × Option Item) := do
+  match t.root with
+  | none => pure ({ t with root := none, length := 0 }, none)
+  | some r => do
+    let h ← (fun H => (heightB H H.size r, H) : M Nat)
+    let _ ← (if add then resetB t.cow h r else pure true : M Bool)
+    pure ({ t with root := none, length := 0 }, none)
 
 /-- `Clone`: two fresh contexts (the caller supplies two unused tags); the store is shared -/
 def cloneB (t : HTree) (c1 c2 : Nat) : HTree × HTree := ({ t with cow := c1 }, { t with cow := c2 })
